@@ -86,7 +86,12 @@ def validate_tjp_file(tjp_path: str) -> Path:
     if path.suffix != ".tjp":
         logger.warning("File does not have .tjp extension: %s", tjp_path)
 
-    if not path.stat().st_size:
+    # Nothing but white space counts as empty, as it does for input on stdin
+    try:
+        blank = not path.stat().st_size or not path.read_bytes().strip()
+    except OSError as e:
+        raise FileNotFoundError(f"File is not readable: {tjp_path} ({e})") from None
+    if blank:
         raise FileNotFoundError(f"File is empty: {tjp_path}")
 
     return path
